@@ -35,6 +35,14 @@ def PureArgs (e : Arg → M Val) (h : Heap) : List Arg → List Val → Prop
   | a :: as, v :: vs => e a h = (.ok v, h) ∧ PureArgs e h as vs
   | _, _ => False
 
+instance (e : Arg → M Val) (h : Heap) : ∀ (args : List Arg) (vs : List Val), Decidable (PureArgs e h args vs)
+  | [], [] => isTrue trivial
+  | a :: as, v :: vs =>
+    have := instDecidablePureArgs e h as vs
+    inferInstanceAs (Decidable (e a h = (.ok v, h) ∧ PureArgs e h as vs))
+  | [], _ :: _ => isFalse (by simp [PureArgs])
+  | _ :: _, [] => isFalse (by simp [PureArgs])
+
 theorem PureArgs.length {e : Arg → M Val} {h : Heap} : ∀ {args vs}, PureArgs e h args vs → args.length = vs.length
   | [], [], _ => rfl
   | _ :: as, _ :: vs, hp => by simp [PureArgs.length (args := as) (vs := vs) hp.2]
